@@ -19,8 +19,9 @@ offset. The only size hypothesis is `byteLen src < 2^32`, which is what makes th
   computed from byte offsets, applied as the *specification* defines, replaces exactly those
   bytes. This needs `NoBareCR` (every `'\r'` is followed by `'\n'`), because the specification
   also ends a line at a bare `'\r'` and the implementation does not;
-  `apply_whole_replace_needs_noBareCR` shows the hypothesis cannot be dropped and
-  `apply_whole_replace_iff` that it is exactly the right one for whole-document edits.
+  `apply_whole_replace_needs_noBareCR` shows on concrete witnesses (`"a\rb"`, `"a\r"`) that the
+  hypothesis cannot be dropped. (Not proved: that *every* document with a bare CR fails, i.e.
+  that `NoBareCR` is also necessary document by document; the exhaustive run observes it.)
 -/
 
 namespace C29
